@@ -143,3 +143,17 @@ Example client_transactions :
   snd wr = CRNone /\ snd (fst wr) = [CSend 217 212 6 [3; 21; 0; 16; 0; 0; 7; 0]; CSend 215 212 6 [3; 7; 8; 9];
                                        CSend 217 212 6 [1; 25; 0; 16; 0; 0; 255; 255]].
 Proof. vm_compute. repeat split; reflexivity. Qed.
+
+(* ---------------------------------------------------------------- the data of a write *)
+(* write() stores the little-endian bytes of the values; when the server's proceed DM15 arrives the query sends ONE DM16
+   to the server carrying exactly those bytes in the framing whose extraction (on the server: C17_write_stores_exact_bytes)
+   returns them unchanged (Dm14Model.dm16_frame / C17_dm16_roundtrip) *)
+Theorem write_sends_exact_bytes s dest :
+  q_dest s = Some dest -> q_state s = Q_WAIT_FOR_SEED -> q_command s = 2 ->
+  cwait_for_data s = (cset_state s Q_WAIT_FOR_OPER, [CSend 215 (Z.land dest 255) 6 (Dm14Model.dm16_frame (q_bytes s))], None).
+Proof.
+  intros Hd Hst Hc. unfold cwait_for_data. rewrite Hst. change (negb (Q_WAIT_FOR_SEED =? Q_WAIT_FOR_SEED)) with false. cbv iota.
+  rewrite Hc. change (2 =? 2) with true. cbv iota. unfold csend_dm16. rewrite Hd. unfold cbind, cok. cbn [app].
+  unfold Dm14Model.dm16_frame, zlen. reflexivity.
+Qed.
+
